@@ -78,6 +78,8 @@ type Obligation struct {
 	Inputs  []InputSym
 	Induct  bool
 	Text    string
+	Cross    string // thorough tier: "<solver>:<status>" of the independent second solver
+	Unstable string // thorough tier: did not discharge again under another seed
 }
 
 type InputSym struct {
